@@ -5,7 +5,7 @@ from hypothesis import strategies as st
 
 import pytenet as ptn
 from core import Part, require, Violation
-from gen_graph import layered_graph, build_graph, graph_desc_poly, chain_list, build_chains, chain_tuples, OID_ID
+from gen_graph import layered_graph, build_graph, graph_desc_poly, chain_list, build_chains, chain_tuples, OID_ID, with_identity_id
 from oracle_sym import frac, graph_poly, graph_layers, poly_sum, poly_reverse, chains_poly, poly_close, absconv
 
 ID = 'C16'
@@ -218,7 +218,9 @@ def check_compiled(case, rec):
     exact = case['a']['cstyle'] == 'dyadic' and case['b']['cstyle'] == 'dyadic'
     conv = frac if exact else float_conv
     La = case['a']['L']
-    descs = [case['a'], dict(case['b'], L=La)]
+    ident = [0, 9, -5][case['a']['chains'][0]['istart'] % 3] if case['a']['chains'] else 0
+    OID_ID = ident
+    descs = [with_identity_id(case['a'], ident), with_identity_id(dict(case['b'], L=La), ident)]
     polys = []; graphs = []; mags = []
     for d in descs:
         chains = [c for c in d['chains'] if c['istart'] + len(c['oids']) <= La]
